@@ -9,6 +9,7 @@ Oracles: (A) without explicit fields the indices are exactly 1..k in document or
 """
 import itertools
 from emmet import expand
+from mc import session
 from mc.ref import abbr_model as M
 
 ID = 'C13'
@@ -89,6 +90,8 @@ def run(abbr, cfg, wrap_text=False):
     o['output.field'] = field
     o['output.text'] = text
     cfg['options'] = o
+    if cfg.get('type') != 'stylesheet':
+        cfg['cache'] = session.CACHE        # the shard's markup calls share one cache dict (mc/session.py)
     out = expand(abbr, cfg)
     return out, recs
 
